@@ -471,6 +471,32 @@ func decompose(_ *ir.Module, fn *ir.Function, varIdx uint32, info *candidateInfo
 		insertEmitForRange(&bodySlice, loadH, ir.Range{Start: newExprStart, End: newExprEnd})
 		fn.Body = ir.Block(bodySlice)
 	}
+
+	// Step 5: Rewrite full struct stores `s = S(c0, c1, ...)` (classify only admits
+	// Compose values, at the top level of the body) into one store per member local.
+	// Without this the store keeps writing the old struct variable while every load
+	// reads the new per-member locals.
+	newBody := make(ir.Block, 0, len(fn.Body))
+	for _, stmt := range fn.Body {
+		st, isStore := stmt.Kind.(ir.StmtStore)
+		if !isStore || int(st.Pointer) >= len(fn.Expressions) || int(st.Value) >= len(fn.Expressions) {
+			newBody = append(newBody, stmt)
+			continue
+		}
+		lv, isLocal := fn.Expressions[st.Pointer].Kind.(ir.ExprLocalVariable)
+		compose, isCompose := fn.Expressions[st.Value].Kind.(ir.ExprCompose)
+		if !isLocal || lv.Variable != varIdx || !isCompose || len(compose.Components) != len(info.st.Members) {
+			newBody = append(newBody, stmt)
+			continue
+		}
+		for i := range info.st.Members {
+			newBody = append(newBody, ir.Statement{Kind: ir.StmtStore{
+				Pointer: fieldExprHandles[uint32(i)],
+				Value:   compose.Components[i],
+			}})
+		}
+	}
+	fn.Body = newBody
 }
 
 // insertEmitForRange finds the StmtEmit that contains targetH and
